@@ -294,7 +294,10 @@ func upstreamReloadE2E(rnd *hx.Rand, k int, sum *hx.Summary) map[string]interfac
 		}
 		return nil
 	}
-	settle := func() { pup.Get(uname).HTTPUpstream.DoHealthCheck() }
+	settle := func() {
+		pup.Get(uname).HTTPUpstream.DoHealthCheck()
+		_ = pup.Get(uname).GetServerStatusList() // what the admin page asks for; must be a pure query
+	}
 	reload := func() {
 		if rnd.Chance(70) {
 			pup.Reset(cfg)
